@@ -160,6 +160,16 @@ def gen_tasks(tier, seed):
         tasks.append({**base, "cls": "MinFlowDecompCycles", "kwargs": {"weight_type": "int", "flow_attr_origin": "node"}})
         tasks.append({**base, "cls": "kPathCoverCycles", "node_flow": None, "kwargs": {"k": k, "cover_type": "node"}})
         tasks.append({**base, "cls": "MinPathCoverCycles", "node_flow": None, "kwargs": {"cover_type": "node"}})
+    # node-weighted graphs whose node names contain dots, one name being the dotted prefix of another ("1" / "1.1"), and names that
+    # themselves end in ".0" / ".1" like the halves of an expanded node: the translation back to the caller's names must be exact
+    for name, nodes, es, nf, k in (("dotted_diamond", ["1", "1.1", "1.2", "2"], [("1", "1.1"), ("1", "1.2"), ("1.1", "2"), ("1.2", "2")], {"1": 3, "1.1": 2, "1.2": 1, "2": 3}, 2),
+                                   ("dotted_halves", ["a", "a.0", "a.1", "a.0.1"], [("a", "a.0"), ("a.0", "a.1"), ("a", "a.1"), ("a.1", "a.0.1")], {"a": 3, "a.0": 1, "a.1": 3, "a.0.1": 3}, 2)):
+        base = {"name": name, "starts": [], "ends": [], "nodes": nodes, "edges": es, "node_flow": nf, "node_mode": True}
+        for cls in ("kFlowDecomp", "kMinPathError", "kLeastAbsErrors", "kFlowDecompCycles", "kMinPathErrorCycles"):
+            tasks.append({**base, "cls": cls, "kwargs": {"k": k, "weight_type": "int", "flow_attr_origin": "node"}})
+        tasks.append({**base, "cls": "MinFlowDecomp", "kwargs": {"weight_type": "int", "flow_attr_origin": "node"}})
+        tasks.append({**base, "cls": "MinPathCover", "node_flow": None, "kwargs": {"cover_type": "node"}})
+        tasks.append({**base, "cls": "MinPathCoverCycles", "node_flow": None, "kwargs": {"cover_type": "node"}})
     for i, t in enumerate(tasks):
         t["tid"] = i
     return tasks
